@@ -47,6 +47,48 @@ type PermCase struct {
 	// spec at the same time as the judged one (several machines of one
 	// specification on several goroutines), not before it
 	Parallel bool `json:"parallel,omitempty"`
+	// Declared: the action and guard sources carry the documented "binds"
+	// declaration (which new bindings the code makes): 0 none, 1 an empty
+	// list, 2 [{"x":"?"}], 3 [{"y":"?"},{"n":1}].  It declares, it does not
+	// limit what the code may delete or replace.
+	Declared int `json:"declared,omitempty"`
+	// ViaCopy (only without error settings, which Spec.Copy does not
+	// carry): the specification is a Copy of the built one, compiled
+	ViaCopy bool `json:"viaCopy,omitempty"`
+}
+
+func (c PermCase) compiled(a *sm.ASpec) (*core.Spec, error) {
+	s := a.Build()
+	if c.Declared > 0 {
+		var binds []match.Bindings
+		switch c.Declared {
+		case 1:
+			binds = []match.Bindings{}
+		case 2:
+			binds = []match.Bindings{{"x": "?"}}
+		case 3:
+			binds = []match.Bindings{{"y": "?"}, {"n": 1.0}}
+		}
+		for _, n := range s.Nodes {
+			if n.ActionSource != nil {
+				n.ActionSource.Binds = binds
+			}
+			if n.Branches != nil {
+				for _, b := range n.Branches.Branches {
+					if b.GuardSource != nil {
+						b.GuardSource.Binds = binds
+					}
+				}
+			}
+		}
+	}
+	if c.ViaCopy {
+		s = s.Copy("copied")
+	}
+	if err := s.Compile(context.Background(), sm.Interpreters(), true); err != nil {
+		return nil, err
+	}
+	return s, nil
 }
 
 const bigInt = int64(1700000000123456789)
@@ -111,6 +153,8 @@ func genPerm(t *rapid.T) PermCase {
 		_, c.Bs["big!"] = typedValue(c.Typed)
 	}
 	c.Parallel = len(c.Warm) > 0 && rapid.Bool().Draw(t, "parallel")
+	c.Declared = rapid.SampledFrom([]int{0, 0, 0, 1, 2, 3}).Draw(t, "declared")
+	c.ViaCopy = !c.ErrBranches && c.ErrNode == "" && rapid.IntRange(0, 3).Draw(t, "viaCopy") == 0
 	c.InPlace = (c.Native || c.GuardNative) && rapid.Bool().Draw(t, "inplace")
 	c.Direct = c.Guard == nil && rapid.IntRange(0, 3).Draw(t, "direct") == 0
 	return c
@@ -170,10 +214,16 @@ func checkPermanentsIn(before map[string]interface{}, after match.Bindings, what
 
 func checkPerm(c PermCase) (v ev.Verdict) {
 	a := c.spec()
-	spec, err := a.Compiled()
+	spec, err := c.compiled(a)
 	if err != nil {
 		v.Failf("spec does not compile: %v", err)
 		return
+	}
+	if c.Declared > 0 {
+		v.Class("declared-binds")
+	}
+	if c.ViaCopy {
+		v.Class("copied-spec")
 	}
 	if c.Parallel {
 		// the same compiled spec, all states at once, a few rounds
@@ -251,9 +301,9 @@ func checkPermOn(c PermCase, a *sm.ASpec, spec *core.Spec) (v ev.Verdict) {
 		}
 		for _, op := range p.Ops {
 			switch op.Op {
-			case "fresh", "keep", "throw", "returnNull", "returnScalar", "outNaN", "acceptIf":
+			case "fresh", "keep", "throw", "returnNull", "returnScalar", "returnTrap", "outNaN", "acceptIf":
 				return true
-			case "set", "del", "inc", "push":
+			case "set", "del", "inc", "push", "calc":
 				if strings.HasSuffix(op.K, "!") {
 					return true
 				}
